@@ -122,6 +122,12 @@ var tmplValConc = map[string][]interface{}{
 	"x1": {"[IMAGE:im1]", "[IMAGE:nope]"},
 }
 
+// value class "one very long line" (just over 64 KiB, the default token limit of bufio.Scanner): takes the
+// place of the last plain concretisation of p2
+func init() {
+	tmplValConc["p2"][5] = "L" + strings.Repeat("long-", 13200)
+}
+
 func tmplHash(s string) int {
 	h := 0
 	for i := 0; i < len(s); i++ {
